@@ -74,7 +74,7 @@ def minimums(tier: str) -> Dict[str, int]:
                 "xml_attrs_compared": 400000, "xml_chardata_compared": 100000, "xml_wellformed_demanded": 1000, "xml_marked_runs": 200,
                 "xml_bytes_parsed": 200, "binary_text_runs": 900, "binary_xml_runs": 600, "file_sink_runs": 300, "escape_codec_text_runs": 60, "escape_codec_xml_runs": 60,
                 "reference_trees_compared": 3500, "text_box_newlines": 10000, "text_formfeeds": 1000,
-                "docs_xmlspecial_text": 200, "docs_xmlspecial_fontname": 150, "docs_xmlspecial_figname": 80, "docs_nonbmp": 40,
+                "docs_xmlspecial_text": 200, "docs_xmlspecial_fontname": 150, "docs_xmlspecial_figname": 80, "docs_nonbmp": 25,
                 "docs_ctrl_text": 60, "docs_ctrl_name": 40, "docs_nonchar_text": 8, "docs_nested_figures": 40, "docs_images": 80,
                 "docs_long_name": 8, "docs_ws_name": 15, "docs_page_selection": 40, "laparams_none_runs": 300, "vertical_boxes": 5,
                 "layout_elements": 200, "seen:xml_tags": 12, "seen:codecs": 28}
